@@ -352,6 +352,8 @@ class Folder(FileSystemItemABC):
                 file.scan()
                 if file.visible_health_status == FileSystemItemHealthStatus.CORRUPT:
                     self.visible_health_status = FileSystemItemHealthStatus.CORRUPT
+            # the folder has been scanned in this step: observations may show its (possibly updated) visible health
+            self._scanned_this_step = True
             return True
 
         if self.scan_countdown <= 0:
